@@ -4,8 +4,12 @@ CONSTANTS
   Timeout = 60
   ConnTimeout = 60
   Replies = 2
-  MaxFaults = 4
+  MaxFaults = 3
   ConnectGuarded = FALSE
+  MaxStreams = 1
+  Delays = {}
+  AllowAbandon = TRUE
+  MaxCalls = 1
 SPECIFICATION Spec
 INVARIANT CommandsOnlyOnVetted
 INVARIANT NoUseAfterTaint
